@@ -2,6 +2,7 @@ package props
 
 import (
 	"bytes"
+	"errors"
 	"fmt"
 	"io"
 	"log"
@@ -298,6 +299,12 @@ func runC06(c *Ctx) {
 	c.MixState(uint64(shape)<<24 | uint64(panicHook)<<20 | uint64(fatalHook)<<16 | uint64(front)<<8 | uint64(lvl))
 
 	stopFirst := g.Chance(6)
+	c06badKV = 0
+	if front == c6Sugarw && g.Chance(2) {
+		c06badKV = 1 + g.Draw(3)
+		c.Describe("malformed key/value list %d passed to the ...w method", c06badKV)
+		c.R.Probe("terminal ...w call with a malformed key/value list")
+	}
 	c.Describe("stop-buffered-sinks-before-the-terminal-call=%v", stopFirst)
 	unstub, exitState := zap.ZsimStubExit()
 	defer unstub()
@@ -568,6 +575,10 @@ func (w *c06world) judgeOne(lf *c06leaf, synced []byte, when string) {
 	}
 }
 
+// c06badKV: which key/value list the sugared ...w front end passes in this run
+// (0 well-formed, 1-3 malformed).
+var c06badKV int
+
 // c06quiet: a panic/fatal hook that just returns, so that an entry above Error
 // can be followed by more calls of the same task.
 type c06quiet struct{}
@@ -611,13 +622,17 @@ func c06call(lg *zap.Logger, front int, lvl zapcore.Level, msg string) {
 			s.Fatalf("%s", msg)
 		}
 	case c6Sugarw:
+		// the key/value list is well-formed or, by the run's draw, malformed (a
+		// dangling key, a non-string key, two bare errors): zap complains about
+		// that in a line of its own, the terminal entry and action are as ever
+		kv := [][]any{{"k", 1}, {"k", 1, "dangling"}, {42, "v", "k", 1}, {errors.New("first"), errors.New("second"), "k", 1}}[c06badKV]
 		switch lvl {
 		case zapcore.DPanicLevel:
-			s.DPanicw(msg, "k", 1)
+			s.DPanicw(msg, kv...)
 		case zapcore.PanicLevel:
-			s.Panicw(msg, "k", 1)
+			s.Panicw(msg, kv...)
 		default:
-			s.Fatalw(msg, "k", 1)
+			s.Fatalw(msg, kv...)
 		}
 	case c6Sugarln:
 		switch lvl {
